@@ -2,9 +2,28 @@
    Proved here, for every reachable state of every configuration and every schedule: an agent that is inside
    try_send, try_recv or try_recv_view is never at a program counter of a wait strategy (spin/yield loop of
    Wait::wait, condition-variable protocol), of the futures park path, or of the futures send loop; its stack is
-   well formed.  Bounded solo termination (ranking function) is not proved (see MANIFEST level_note). *)
+   well formed.
+   Bounded solo termination, for every shared state whatsoever (reachable or not: the other threads may be frozen
+   anywhere) and every register contents of the running agent:
+   - the receive attempt (the common body of try_recv and try_recv_view, also run by recv/poll: from the read of
+     "am I the only consumer" to the return to the caller): C18_receive_attempt_rank_decreases - a ranking function
+     (a static order of the program counters plus a penalty while the attempt position is not the stream's cursor)
+     that every own step decreases unless it returns; every retry edge (cursor re-check failed, commit
+     compare-exchange failed) reloads the cursor, after which no retry edge can be taken without another thread's
+     step; C18_receive_attempt_solo_bound - at most 40 consecutive own steps stay inside the attempt;
+   - the send body (try_send from the choice of the single-/multi-writer path to the return, the scan of the
+     stream list included): C18_send_body_rank_decreases - the same with penalties for a stale loaded head (the
+     claiming compare-exchange failed) and a stale stream list (pointer re-validation failed) and the length of
+     the list being scanned; C18_send_body_solo_bound - from the start of the body at most
+     2 * (number of registered streams) + 16 consecutive own steps stay inside it.
+   So a try operation never spins on another thread's unfinished work: an unpublished slot yields Empty, a pinned
+   slot Full.  Not covered by a ranking function: the epoch announcement (update_token, straight-line code) and
+   the notification calls after the body (they take a mutex of the wait strategy: C18 is stated for strategies
+   that need no notification); spurious failures of compare_exchange_weak are excluded ([micro] models a weak
+   compare-exchange that fails only when the value differs; the spurious step is [micro_spur]). *)
 From Coq Require Import NArith List Bool.
-Require Import MQ.Arith64 MQ.Types MQ.State MQ.Model MQ.Exec MQ.Reach MQ.Ctl MQ.CtlFacts.
+Require Import MQ.Arith64 MQ.Types MQ.State MQ.Model MQ.Exec MQ.Reach MQ.Ctl MQ.CtlFacts MQ.SoloRecvStep MQ.SoloSendStep.
+Import ListNotations.
 Open Scope N_scope.
 
 Theorem C18_try_never_in_wait_code : forall c fut s a A,
@@ -27,4 +46,63 @@ Example C18_nonvacuous :
 Proof.
   exists (reach_by (mk_cfg BCast 2 WBusy) false (Start 1 CTryRecv :: Step 1 :: nil)).
   eexists. split; [apply reach_run|]. vm_compute. repeat split.
+Qed.
+
+(* ---- bounded solo termination ---- *)
+Theorem C18_receive_attempt_rank_decreases : forall c me A S o,
+  micro c me A S = Some o -> in_att (a_pc A) = true ->
+  (in_att (a_pc (o_a o)) = true /\ a_stack (o_a o) = a_stack A /\ att_rank (o_a o) (o_s o) < att_rank A S) \/
+  returned A (o_a o).
+Proof. exact micro_att_rank. Qed.
+Check C18_receive_attempt_rank_decreases : forall c me A S o,
+  micro c me A S = Some o -> in_att (a_pc A) = true ->
+  (in_att (a_pc (o_a o)) = true /\ a_stack (o_a o) = a_stack A /\ att_rank (o_a o) (o_s o) < att_rank A S) \/
+  returned A (o_a o).
+Print Assumptions C18_receive_attempt_rank_decreases.
+
+Theorem C18_receive_attempt_solo_bound : forall c me k A S,
+  solo_att c me k A S -> in_att (a_pc A) = true -> (k <= 40)%nat.
+Proof. exact solo_att_at_most_40. Qed.
+Check C18_receive_attempt_solo_bound : forall c me k A S,
+  solo_att c me k A S -> in_att (a_pc A) = true -> (k <= 40)%nat.
+Print Assumptions C18_receive_attempt_solo_bound.
+
+Theorem C18_send_body_rank_decreases : forall c me A S o,
+  micro c me A S = Some o -> in_send A = true ->
+  (in_send (o_a o) = true /\ base (o_a o) = base A /\ send_rank (o_a o) (o_s o) < send_rank A S) \/
+  in_send (o_a o) = false \/
+  (a_pc (o_a o) = hd Idle (base A) /\ a_stack (o_a o) = tl (base A)).
+Proof. exact micro_send_rank. Qed.
+Check C18_send_body_rank_decreases : forall c me A S o,
+  micro c me A S = Some o -> in_send A = true ->
+  (in_send (o_a o) = true /\ base (o_a o) = base A /\ send_rank (o_a o) (o_s o) < send_rank A S) \/
+  in_send (o_a o) = false \/
+  (a_pc (o_a o) = hd Idle (base A) /\ a_stack (o_a o) = tl (base A)).
+Print Assumptions C18_send_body_rank_decreases.
+
+Theorem C18_send_body_solo_bound : forall c me k A S,
+  solo_send c me k A S -> a_pc A = TSmode -> N.of_nat k <= 2 * lenN (ggroup S (cur S)) + 16.
+Proof. exact solo_send_from_start. Qed.
+Check C18_send_body_solo_bound : forall c me k A S,
+  solo_send c me k A S -> a_pc A = TSmode -> N.of_nat k <= 2 * lenN (ggroup S (cur S)) + 16.
+Print Assumptions C18_send_body_solo_bound.
+
+(* non-vacuity: solo runs exist - three own steps of a receive attempt, three of a send body, from the initial state
+   of a broadcast queue with the agents just inside the bodies *)
+Example C18_solo_witness :
+  let c := mk_cfg BCast 2 WBusy in
+  (exists A S, in_att (a_pc A) = true /\ solo_att c 1 3 A S) /\
+  (exists A S, a_pc A = TSmode /\ solo_send c 0 3 A S).
+Proof.
+  cbv zeta. split.
+  - exists (set_a_stack [TRfin] (set_a_pc R1pre (mkagent RRecv true true 0 1 Idle [] empty_regs false false))), (sh (init false)).
+    split; [reflexivity|].
+    eapply solo_S; [vm_compute; reflexivity|reflexivity|reflexivity|].
+    eapply solo_S; [vm_compute; reflexivity|reflexivity|reflexivity|].
+    eapply solo_S; [vm_compute; reflexivity|reflexivity|reflexivity|]. apply solo_0.
+  - exists (set_a_stack [TSfin] (set_a_pc TSmode (mkagent RSender true false 0 0 Idle [] empty_regs false false))), (sh (init false)).
+    split; [reflexivity|].
+    eapply ssolo_S; [vm_compute; reflexivity|reflexivity|reflexivity|].
+    eapply ssolo_S; [vm_compute; reflexivity|reflexivity|reflexivity|].
+    eapply ssolo_S; [vm_compute; reflexivity|reflexivity|reflexivity|]. apply ssolo_0.
 Qed.
